@@ -74,7 +74,14 @@ class ScriptedTransport(BaseTransport, scheme="fake"):
         self.is_closed = True
         self.env.rec(e="Close")
 
+    def _refuse_when_closed(self, op: str) -> None:
+        # like every real gallia transport: reconnect() returns a NEW object, the closed one refuses I/O
+        if self.is_closed:
+            self.env.rec(e="IoOnClosed", op=op)
+            raise ConnectionResetError(f"scripted: {op} on a closed transport")
+
     async def write(self, data: bytes, timeout: float | None = None, tags: list[str] | None = None) -> int:
+        self._refuse_when_closed("write")
         fault = None
         try:
             fault = self.env.on_write(data)
@@ -92,6 +99,7 @@ class ScriptedTransport(BaseTransport, scheme="fake"):
                 self.env.rec(e=fault)
 
     async def read(self, timeout: float | None = None, tags: list[str] | None = None) -> bytes:
+        self._refuse_when_closed("read")
         cls, data = self.env.on_read(timeout)
         t0 = now_ms()
         try:
